@@ -447,6 +447,9 @@ func schedAccount(c *fw.Ctx, x *sched.Explorer, name string) {
 	if st.Deadlines > 0 {
 		c.HarnessError("%s %s: %d executions hit the watchdog", c.Prop, name, st.Deadlines)
 	}
+	if st.Nondeterministic {
+		c.HarnessError("%s %s: replaying the default schedule gave a different execution (uncaptured nondeterminism)", c.Prop, name)
+	}
 	if st.StepCapped > 0 {
 		c.Cap("%s: %d executions hit the step cap", name, st.StepCapped)
 	}
